@@ -402,16 +402,20 @@ pub fn strftime(ts: time::OffsetDateTime, fmt: &str) -> Result<String, DateForma
                 let nanos = ts.nanosecond();
                 let digits = padding.unwrap_or(if fmt_char == 'L' { 3 } else { 9 });
 
-                w!(
-                    output,
-                    "{:0<width$}",
-                    if digits <= 9 {
-                        nanos / 10u32.pow(9 - digits as u32)
-                    } else {
-                        nanos
-                    },
-                    width = digits
-                );
+                if digits <= 9 {
+                    // the leading `digits` digits of the 9-digit fraction, keeping leading zeros
+                    w!(
+                        output,
+                        "{:0>width$}",
+                        nanos / 10u32.pow(9 - digits as u32),
+                        width = digits
+                    );
+                } else {
+                    w!(output, "{:09}", nanos);
+                    for _ in 9..digits {
+                        output.push('0');
+                    }
+                }
 
                 continue;
             }
